@@ -884,6 +884,10 @@ def set_myopic_cost_to(
 
 	# Check that cost >= G_S_underbar.
 	if cost < G_S_underbar:
+		# cost may fall below the minimum of G_t by rounding error only (e.g., G_t(S_underbar) + K - K);
+		# the solution is then S_underbar itself.
+		if np.isclose(cost, G_S_underbar, rtol=1e-9, atol=1e-9):
+			return S_underbar
 		raise ValueError("cost < G_t(S_underbar), so there is no y s.t. G_t(y) = cost")
 
 	# Determine bounds for brentq() function.
